@@ -541,3 +541,102 @@ Proof.
   apply bytes_eqb_eq in E. apply Inj in E. subst i2.
   rewrite (model_input_same_host fmt kt proto h1 h2 i1 F M1 M2). apply pack_eqb_refl.
 Qed.
+
+(** ** secret values: the KDF input determines (master secret, protocol, epoch) *)
+
+Lemma app_eq_len {A} (a b x y : list A) : length a = length b -> a ++ x = b ++ y -> a = b /\ x = y.
+Proof.
+  revert b. induction a as [|h a IH]; intros [|h' b] L E; try discriminate.
+  - auto.
+  - cbn in L, E. injection E as -> E. injection L as L. destruct (IH b L E) as [-> ->]. auto.
+Qed.
+
+Lemma sv_input_inj ms1 ms2 p1 p2 (e1 e2 : epoch) :
+  N.of_nat (length ms1) < 2 ^ 64 -> N.of_nat (length ms2) < 2 ^ 64 ->
+  p1 < 2 ^ 16 -> p2 < 2 ^ 16 ->
+  fst e1 < 2 ^ 32 -> snd e1 < 2 ^ 32 -> fst e2 < 2 ^ 32 -> snd e2 < 2 ^ 32 ->
+  sv_input ms1 p1 e1 = sv_input ms2 p2 e2 -> ms1 = ms2 /\ p1 = p2 /\ e1 = e2.
+Proof.
+  unfold sv_input. intros L1 L2 P1 P2 B1 E1 B2 E2 H.
+  apply app_eq_len in H as [H8 H]; [|now rewrite !be_length].
+  apply (be_inj 8) in H8; [|assumption|assumption]. apply Nat2N.inj in H8.
+  apply app_eq_len in H as [-> H]; [|assumption].
+  apply app_eq_len in H as [Hp H]; [|now rewrite !be_length].
+  apply (be_inj 2) in Hp; [|assumption|assumption].
+  apply app_eq_len in H as [Hb He]; [|now rewrite !be_length].
+  apply (be_inj 4) in Hb; [|assumption|assumption].
+  apply (be_inj 4) in He; [|assumption|assumption].
+  destruct e1, e2; cbn [fst snd] in *; subst; auto.
+Qed.
+
+Lemma u32_lt z : u32 z < 2 ^ 32.
+Proof.
+  unfold u32. pose proof (Z.mod_pos_bound z (2 ^ 32) ltac:(lia)) as B.
+  change (2 ^ 32) with (Z.to_N (2 ^ 32)%Z). apply Z2N.inj_lt; lia.
+Qed.
+
+Lemma sv_epoch_lt d t : fst (sv_epoch d t) < 2 ^ 32 /\ snd (sv_epoch d t) < 2 ^ 32.
+Proof. unfold sv_epoch. cbn [fst snd]. split; apply u32_lt. Qed.
+
+Lemma lvl1_proto_lt p : p < 2 ^ 16 -> lvl1_proto p < 2 ^ 16.
+Proof. unfold lvl1_proto. destruct (is_predefined p); [auto | intros _; reflexivity]. Qed.
+
+Lemma sv_pair_ok_model (kdf : bytes -> key) ms p1 e1 p2 e2 :
+  (forall i j, kdf i = kdf j -> i = j) ->
+  N.of_nat (length ms) < 2 ^ 64 -> p1 < 2 ^ 16 -> p2 < 2 ^ 16 ->
+  fst e1 < 2 ^ 32 -> snd e1 < 2 ^ 32 -> fst e2 < 2 ^ 32 -> snd e2 < 2 ^ 32 ->
+  sv_pair_ok p1 e1 p2 e2 (derive_sv kdf ms p1 e1) (derive_sv kdf ms p2 e2)
+             (derive_sv kdf ms p1 e1) (derive_sv kdf ms p2 e2) = true.
+Proof.
+  intros Inj L P1 P2 B1 E1 B2 E2. unfold sv_pair_ok. rewrite !opt_bytes_eqb_refl. cbn [andb].
+  unfold derive_sv. destruct ms as [|x ms]; [reflexivity|].
+  destruct (bytes_eqb _ _) eqn:E; [|reflexivity].
+  apply bytes_eqb_eq in E. apply Inj in E.
+  apply sv_input_inj in E as (_ & -> & ->); try assumption.
+  unfold epoch_eqb. now rewrite !N.eqb_refl.
+Qed.
+
+(** *** separation along the whole hierarchy, for a collision-free KDF and PRF *)
+Section FullSeparation.
+  Variable kdf : bytes -> key.
+  Variable prf : key -> bytes -> key.
+  Variable ms : N -> bytes.
+  Variable dur : N -> option Z.
+  Hypothesis kdf_inj : forall i j, kdf i = kdf j -> i = j.
+  Hypothesis prf_inj : forall k k' i i', prf k i = prf k' i' -> k = k' /\ i = i'.
+
+  Lemma as_host_keys_separate loc1 loc2 p1 p2 t1 t2 src dst1 dst2 h1 h2 k e1 e2 :
+    N.of_nat (length (ms src)) < 2 ^ 64 ->
+    p1 < 2 ^ 16 -> p2 < 2 ^ 16 -> p1 <> generic -> p2 <> generic ->
+    dst1 < 2 ^ 64 -> dst2 < 2 ^ 64 ->
+    engine_as_host prf (sv_of kdf ms) dur loc1 p1 t1 src dst1 h1 = ROk k e1 ->
+    engine_as_host prf (sv_of kdf ms) dur loc2 p2 t2 src dst2 h2 = ROk k e2 ->
+    p1 = p2 /\ e1 = e2 /\ dst1 = dst2 /\ pack_addr h1 = pack_addr h2.
+  Proof.
+    intros L P1 P2 G1 G2 D1 D2 A1 A2.
+    apply engine_as_host_ok in A1 as (d1 & Du1 & -> & K1).
+    apply engine_as_host_ok in A2 as (d2 & Du2 & -> & K2).
+    rewrite host_lvl2_eq in K1, K2.
+    destruct (lvl2_input kt_as_host p1 h1) as [i1|] eqn:I1; [|discriminate].
+    destruct (lvl2_input kt_as_host p2 h2) as [i2|] eqn:I2; [|discriminate].
+    cbn [option_map] in K1, K2.
+    assert (E : prf (host_lvl1 prf (sv_of kdf ms src (lvl1_proto p1) (sv_epoch d1 t1)) dst1) i1 =
+                prf (host_lvl1 prf (sv_of kdf ms src (lvl1_proto p2) (sv_epoch d2 t2)) dst2) i2)
+      by congruence.
+    apply prf_inj in E as [E Ei]. subst i2.
+    unfold host_lvl1 in E. apply prf_inj in E as [Es El].
+    apply lvl1_input_inj in El; [|assumption|assumption].
+    unfold sv_of in Es. apply kdf_inj in Es.
+    destruct (sv_epoch_lt d1 t1), (sv_epoch_lt d2 t2).
+    apply sv_input_inj in Es as (_ & Lp & Ee); try assumption; try (now apply lvl1_proto_lt).
+    destruct (lvl2_input_inj _ _ _ _ _ _ _ P1 P2 Lp G1 G2 I1 I2) as (_ & Pp & Ph).
+    auto.
+  Qed.
+End FullSeparation.
+
+(** the hypotheses of [FullSeparation] are satisfiable *)
+Lemma toy_prf_inj (k k' : key) (i i' : bytes) :
+  N.of_nat (length k) :: k ++ i = N.of_nat (length k') :: k' ++ i' -> k = k' /\ i = i'.
+Proof.
+  intros E. injection E as L E. apply Nat2N.inj in L. now apply app_eq_len in E.
+Qed.
